@@ -30,7 +30,7 @@ REQUIRED = ["histories", "rounds:redraw", "rounds:continue", "append_checked", "
             "round_adds_card_before_already_selected", "round_without_change", "contest_full_hand_count", "style_on", "style_off",
             "p_decreased", "proved_carried_over", "fine_grained_histories", "histories_after_a_dry_run",
             "confirmed_earlier_and_risk_now_above_limit", "histories_starting_with_construction_time_bounds_in_the_tests",
-            "histories_through_the_point_where_the_clean_total_equals_N_t"]
+            "histories_through_the_point_where_the_clean_total_equals_N_t", "planning_call_from_assumed_rates_between_rounds"]
 ASSUMPTIONS = ["the 'measured risk is non-increasing' clause is asserted for tests configured with random_order=True (the "
                "factories' setting); for random_order=False the overall value is the last history entry, so only the "
                "append clause and the kept confirmation are asserted there", "polling is only generated without style (the library gives it the whole sample); without style the sample "
@@ -200,6 +200,18 @@ def run_variant(es, rounds, variant, rec):
         hist.append({"sel": idx, "data": data, "pv": pv, "thr": thr, "sizes": dict(sizes)})
         prev = idx
         rec.count(f"rounds:{variant}")
+        if es.get("_plan_between") and sim.use_style:
+            # a planning question between rounds, from assumed error rates rather than from the data (what one asks
+            # when deciding how far to escalate); asking it must not change how the evidence is evaluated afterwards
+            sim.audit.error_rate_2 = es["_plan_between"]["rate_2"]
+            sim.audit.error_rate_1 = es["_plan_between"]["rate_1"]
+            with np.errstate(all="ignore"), contextlib.redirect_stdout(sink):
+                try:
+                    sim.audit.find_sample_size(sim.contests, sim.cvr_list)
+                    rec.count("planning_call_from_assumed_rates_between_rounds")
+                except (AssertionError, ValueError, NotImplementedError, ZeroDivisionError):
+                    # planning may refuse (e.g. a non-positive margin); whether it should is C16's subject, not C10's
+                    rec.count("planning_call_between_rounds_refused")
     return hist, sim
 
 
@@ -219,6 +231,9 @@ def run_case(es, rec):
             cur += rng.randint(1, 3)
         es["_rounds"] = sizes
         rec.count("fine_grained_histories")
+    if "_plan_between" not in es:
+        es["_plan_between"] = ({"rate_1": rng.choice((0, 0.001, 0.05)), "rate_2": rng.choice((0, 0.01, 0.05, 0.2))}
+                               if rng.random() < 0.25 else None)
     rounds = es.get("_rounds") or gen_rounds(rng, sim0)
     es["_rounds"] = rounds
     nums = [c.sample_num for c in sim0.cvr_list]
